@@ -564,3 +564,4 @@ def replay(case):
     return f'{s!r} parsed as {got!r}, reference decoder gives {exp!r}'
 
 MANIFEST['text'] += ' Deliveries also include chunked bodies with an empty or a present Content-Length; request sequences through one application (a streaming handler looks at its request late) are a layer of their own.'
+MANIFEST['text'] += ' Chunked forms that also carry a smaller Content-Length, and text whose code points read as bytes are UTF-8, are part of the universe.'
